@@ -120,10 +120,6 @@ theorem commaless_atom_list_parses (as : List Atom) (ts : List LTok) (eofLine : 
     Impl.parse T (program ts eofLine) = .ok (.list (atomItems as)) :=
   pratt_print_redundant _ _ (Prints.list (atomItems_prints as)) ts eofLine h
 
-/-- non-vacuity: `[1 2 3]` with the tokens on three different lines -/
-example : Impl.parse T (program [⟨.lb, 1⟩, ⟨.atom n1, 1⟩, ⟨.atom n2, 2⟩, ⟨.atom n3, 3⟩, ⟨.rb, 3⟩] 4)
-    = .ok (.list (atomItems [n1, n2, n3])) := commaless_atom_list_parses [n1, n2, n3] _ 4 rfl
-
 /- Full statement (not provable in this file, which starts from tokens):
      for source texts s1 s2 that differ only in blanks / tabs / newlines between tokens and are one
      statement each, `Impl.parse (lex s1) = Impl.parse (lex s2)`.
@@ -142,6 +138,53 @@ theorem layout_irrelevant_partial (e : Expr) (ks : List TK) (hp : Prints e .top 
     executable parser suffices; fuel is only a device for structural recursion. -/
 theorem parse_fuel_suffices (ts : List LTok) : Impl.parse T ts ≠ .error .fuel :=
   parse_never_out_of_fuel T ts
+
+/-- C03 (the driver runs the function the theorems are about): the driver parses with
+    `Impl.parseProgram` (programs of several expression statements); on every token list for which
+    `Impl.parse` returns a tree it returns exactly that one statement, and whenever it returns a
+    single statement `Impl.parse` returns it — so `pratt_print`, `parse_sound`, … speak about what the
+    correspondence run compares. -/
+theorem parseProgram_single (ts : List LTok) (e : Expr) (n : Nat) :
+    Impl.parse T ts = .ok e ↔ Impl.parseProgram T (n + 1) ts = .ok [e] := by
+  simp only [Impl.parse, Impl.parseFuel, Impl.parseProgram]
+  cases hr : Impl.run T (2 * ts.length + 4) 0 ts with
+  | error x => simp
+  | ok res =>
+    obtain ⟨e', ln, rest⟩ := res
+    cases rest with
+    | nil => simp
+    | cons t rest' =>
+      simp only
+      by_cases heof : t.tk = .eof
+      · simp [heof]
+      · simp only [heof, if_false]
+        by_cases hl : ln < t.line
+        · simp only [hl, if_true]
+          constructor
+          · intro h; cases h
+          · intro h
+            cases hp : Impl.parseProgram T n (t :: rest') with
+            | error x => rw [hp] at h; cases h
+            | ok es =>
+              rw [hp] at h
+              simp only [Except.ok.injEq, List.cons.injEq] at h
+              obtain ⟨_, rfl⟩ := h
+              -- a further statement was parsed: impossible, `parseProgram` never returns the empty list
+              exfalso
+              cases n with
+              | zero => simp [Impl.parseProgram] at hp
+              | succ m =>
+                simp only [Impl.parseProgram] at hp
+                split at hp
+                · split at hp
+                  · cases hp
+                  · split at hp
+                    · cases hp
+                    · split at hp
+                      · split at hp <;> cases hp
+                      · cases hp
+                · cases hp
+        · simp [hl]
 
 /-- C03 (converse — the parser accepts nothing but the documented grammar): whenever the parser
     with the real table returns a tree for a token list (on whatever lines), the tokens before
@@ -229,6 +272,14 @@ example : pr (.bin .plus tPlus (.atom n1) (.bin .times tTimes (.atom n2) (.atom 
 
 example : Impl.parse T (program (line1 [.atom n1, .op .plus tPlus, .atom n2, .op .times tTimes, .atom n3]) 1)
     = .ok (.bin .plus tPlus (.atom n1) (.bin .times tTimes (.atom n2) (.atom n3))) := by rfl
+
+/-- non-vacuity of `parseProgram_single`: `1 + 2 * 3` is one statement for both -/
+example : Impl.parseProgram T 7 (program (line1 [.atom n1, .op .plus tPlus, .atom n2, .op .times tTimes, .atom n3]) 1)
+    = .ok [.bin .plus tPlus (.atom n1) (.bin .times tTimes (.atom n2) (.atom n3))] := by rfl
+
+/-- non-vacuity of `commaless_atom_list_parses`: `[1 2 3]` with the tokens on three different lines -/
+example : Impl.parse T (program [⟨.lb, 1⟩, ⟨.atom n1, 1⟩, ⟨.atom n2, 2⟩, ⟨.atom n3, 3⟩, ⟨.rb, 3⟩] 4)
+    = .ok (.list (atomItems [n1, n2, n3])) := commaless_atom_list_parses [n1, n2, n3] _ 4 rfl
 
 /-- `(1 + 2) * 3` needs its brackets; `1 - (2 - 3)` too (left associativity) -/
 example : pr (.bin .times tTimes (.bin .plus tPlus (.atom n1) (.atom n2)) (.atom n3)) .top .none
